@@ -413,6 +413,16 @@ def f_eqrel_input(p):
     return m
 
 
+def f_itercnt(p):
+    """the iteration counter of the enclosing fixpoint loop, read inside a parallel operation of a recursive rule"""
+    n = p.fresh("itc")
+    p.decl(n, [("x", "number"), ("y", "number"), ("i", "unsigned")], p.repr_for(3))
+    k = p.r.randrange(3, 7)
+    p.rule("%s(x,y,0) :- e1(x,y), x < y." % n)
+    p.rule("%s(x,z,recursive_iteration_cnt()) :- %s(x,y,_), e1(y,z), recursive_iteration_cnt() < %d." % (n, n, k))
+    return n
+
+
 def f_io_relation(p):
     """a relation that is both .input and .output (no rules of its own) and feeds a derived relation"""
     r = p.r
@@ -452,7 +462,7 @@ def f_typed_input(p):
 
 
 FRAGMENTS = [f_exists, f_exists_idx, f_facts, f_index_brie, f_outer_aggr2, f_filter, f_join, f_join3, f_tc, f_mutual, f_negation, f_aggr, f_outer_aggr, f_strings, f_records, f_adt, f_eqrel, f_multi,
-             f_arith, f_indexed, f_eqrel_input, f_typed_input, f_io_relation]
+             f_arith, f_indexed, f_eqrel_input, f_typed_input, f_io_relation, f_itercnt]
 
 
 def f_input_derived(p):
